@@ -13,7 +13,8 @@
 From Coq Require Import Permutation.
 From RS Require Import Lib.Tac Lib.Outcome Dag.DagModel Dag.PostOrderSpec Dag.PostOrderProps
   Dag.VisitFacts Dag.Variants Dag.PreOrder Dag.Acyclic Dag.Coverage Dag.Shared Dag.VerbosePre
-  Dag.Examples Dag.SharedInj Dag.Keyless.
+  Dag.Examples Dag.SharedInj Dag.Keyless Dag.Convert Dag.ConvertProps Dag.ConvertOrder Dag.ConvertStruct
+  Dag.ConvertTree Dag.ConvertOrderErr Dag.ConvertHooksOnce Dag.RunConvert.
 Import ListNotations.
 Local Open Scope N_scope.
 
@@ -257,3 +258,166 @@ Theorem C18_is_shared_as_needs_acyclic :
   map it_node (po_spec (node_at cyc2) key_ptr 1).
 Proof. exact is_shared_as_needs_acyclic. Qed.
 Print Assumptions C18_is_shared_as_needs_acyclic.
+
+(* 14. Node::convert - the generic conversion driven by the iterator (model Dag/Convert.v: the
+   loop over post_order_iter::<S>() with the vector `converted`, children looked up by
+   left_index / right_index, the Converter hooks as an abstract state-passing record, unwrap and
+   indexing as Panic outcomes).
+     dis        Disconnectable::disconnect_dag_ref of the source's disconnect data
+     swf dis t  the source table has its children at smaller positions
+   A successful conversion returns the converter state and the whole vector (root = last entry). *)
+
+(* no unwrap of a child index fails, every `converted[..]` lookup is in range, the final pop
+   finds a node: for every table, tracker and converter the outcome is Ok or the converter's Err *)
+Theorem C18_convert_no_panic : forall (X W D X' W' D' St Er : Type) (dis : X -> option nat)
+    (cv : @converter X W X' W' D' St Er) key (t : list (@snode X W D)),
+  swf dis t -> forall root, (root < length t)%nat -> forall fuel s,
+  (po_fuel (src_children dis t) root <= fuel)%nat ->
+  match convert dis cv key t fuel root s with Panic _ | OutOfFuel => False | _ => True end.
+Proof. exact @convert_no_panic. Qed.
+Print Assumptions C18_convert_no_panic.
+
+(* each yielded item is converted exactly once, in iteration order, into a node carrying the CMR
+   of the item's node; a keyed class has one converted node; every child pointer of a converted
+   node is an earlier entry of `converted`, namely the one made for the class of that child
+   (so children shared in the source - by the tracker's notion - are shared in the result) *)
+Theorem C18_convert_once : forall (X W D X' W' D' St Er : Type) (dis : X -> option nat)
+    (cv : @converter X W X' W' D' St Er) key (t : list (@snode X W D)),
+  swf dis t -> forall root, (root < length t)%nat -> forall fuel s s' tbl,
+  (po_fuel (src_children dis t) root <= fuel)%nat ->
+  convert dis cv key t fuel root s = Ok (s', tbl) ->
+  let items := po_spec (src_children dis t) key root in
+  length tbl = length items /\
+  (forall i j it1 it2 k, nth_error items i = Some it1 -> nth_error items j = Some it2 ->
+     key (it_node it1) = Some k -> key (it_node it2) = Some k -> i = j) /\
+  (forall i it, nth_error items i = Some it ->
+     exists sn tn, nth_error t (it_node it) = Some sn /\ nth_error tbl i = Some tn /\
+       tn_cmr tn = sn_cmr sn /\
+       (forall c, In c (ichildren (tn_inner tn)) -> (c < i)%nat) /\
+       kids_refer dis key t root (sn_inner sn) (tn_inner tn)).
+Proof. exact @convert_once. Qed.
+Print Assumptions C18_convert_once.
+
+(* shape of every converted node, for any converter: the source combinator over the item's
+   child indices with its fixed payload, or - for a Case - AssertR / AssertL keeping one child
+   and carrying the CMR of the other converted child *)
+Theorem C18_convert_shape : forall (X W D X' W' D' St Er : Type) (dis : X -> option nat)
+    (cv : @converter X W X' W' D' St Er) key (t : list (@snode X W D)),
+  swf dis t -> forall root, (root < length t)%nat -> forall fuel s s' tbl,
+  (po_fuel (src_children dis t) root <= fuel)%nat ->
+  convert dis cv key t fuel root s = Ok (s', tbl) ->
+  length tbl = length (po_spec (src_children dis t) key root) /\
+  forall i it tn, nth_error (po_spec (src_children dis t) key root) i = Some it -> nth_error tbl i = Some tn ->
+    exists sn, nth_error t (it_node it) = Some sn /\ tn_cmr tn = sn_cmr sn /\
+      shape_rel (cmr_at tbl) (sn_inner sn) (it_left it) (it_right it) (tn_inner tn) /\
+      (forall c, In c (ichildren (tn_inner tn)) -> (c < i)%nat).
+Proof. exact @convert_table. Qed.
+Print Assumptions C18_convert_shape.
+
+(* hooks are called in post-order: for the instrumented converter `logging cv` (same decisions as
+   cv, every call logged with its item) the log of a successful conversion is, item by item in
+   iteration order, visit_node, [convert_witness | convert_disconnect | prune_case], convert_data *)
+Theorem C18_convert_order : forall (X W D X' W' D' St Er : Type) (dis : X -> option nat)
+    (cv : @converter X W X' W' D' St Er) key (t : list (@snode X W D)),
+  swf dis t -> forall root, (root < length t)%nat -> forall fuel s s' lg tbl,
+  (po_fuel (src_children dis t) root <= fuel)%nat ->
+  convert dis (logging cv) key t fuel root (s, []) = Ok ((s', lg), tbl) ->
+  map ev_key lg = flat_map (hooks_at t) (po_spec (src_children dis t) key root).
+Proof. exact @convert_order. Qed.
+Print Assumptions C18_convert_order.
+
+Theorem C18_convert_logging_same : forall (X W D X' W' D' St Er : Type) (dis : X -> option nat)
+    (cv : @converter X W X' W' D' St Er) key (t : list (@snode X W D)),
+  swf dis t -> forall root, (root < length t)%nat -> forall fuel s lg,
+  (po_fuel (src_children dis t) root <= fuel)%nat ->
+  match convert dis (logging cv) key t fuel root (s, lg), convert dis cv key t fuel root s with
+  | Ok ((s1, _), n1), Ok (s2, n2) => s1 = s2 /\ n1 = n2
+  | Err ((s1, _), e1), Err (s2, e2) => s1 = s2 /\ e1 = e2
+  | Panic c1, Panic c2 => c1 = c2
+  | OutOfFuel, OutOfFuel => True
+  | _, _ => False
+  end.
+Proof. exact @convert_logging_same. Qed.
+Print Assumptions C18_convert_logging_same.
+
+(* structure: the converter that keeps witnesses, cached data and the converted disconnected
+   child and hides by an arbitrary decision function returns exactly the closed-form table
+   spec_tbl (the source up to the hide decisions); with "hide nothing" that table is the
+   quotient DAG - one node per yielded class, child pointers = positions of the children's classes *)
+Theorem C18_convert_structure_prune : forall (W D Er : Type) key (t : list (@snode (option nat) W D)),
+  swf dis_id t -> forall root, (root < length t)%nat -> forall dec fuel,
+  (po_fuel (src_children dis_id t) root <= fuel)%nat ->
+  convert dis_id (@prune_cv W D Er t dec) key t fuel root tt =
+  Ok (tt, spec_tbl t dec (po_spec (src_children dis_id t) key root) []).
+Proof. exact @convert_structure_prune. Qed.
+Print Assumptions C18_convert_structure_prune.
+
+Theorem C18_convert_structure_identity : forall (W D Er : Type) key (t : list (@snode (option nat) W D)),
+  swf dis_id t -> forall root, (root < length t)%nat -> forall fuel,
+  (po_fuel (src_children dis_id t) root <= fuel)%nat ->
+  convert dis_id (@prune_cv W D Er t (fun _ => HideNeither)) key t fuel root tt =
+  Ok (tt, quot_tbl t (po_spec (src_children dis_id t) key root)).
+Proof. exact @convert_structure_identity. Qed.
+Print Assumptions C18_convert_structure_identity.
+
+(* the hypotheses are satisfiable and the model runs: a case over a diamond, left branch hidden *)
+Theorem C18_convert_example :
+  run_conv [1;0;0;0;0;  2;0;0;0;1;  3;0;0;0;2;  7;1;2;0;3] 3 [1;2;3;4] [0;0;0;1] 0 100 =
+  [0; 9;
+   0;0;0;0;0;0;0;  4;0;0;0;0;0;0;
+   0;1;1;1;0;0;0;  4;1;1;1;0;1;0;
+   0;2;2;1;0;0;0;  4;2;2;1;0;1;0;
+   0;3;3;2;3;0;0;  3;3;3;2;3;2;3;  4;3;3;2;3;3;0;
+   4;
+   1;0;0;0;0;0;0;0;
+   2;1;0;0;1;0;0;1;
+   3;1;0;0;2;0;0;2;
+   9;3;0;2;3;0;0;3;
+   5].
+Proof. exact run_conv_smoke. Qed.
+Print Assumptions C18_convert_example.
+
+(* tree level: un-sharing the result of the identity conversion at any item gives the un-shared
+   source at that item's node (label = combinator with payloads, CMR, cached data); the returned
+   root is the un-shared source root.  Hypothesis: sound sharing ids - nodes with the same id
+   unfold to the same tree - which holds for pointer identity and for no sharing (below) and for
+   any hash of the structure below a node. *)
+Theorem C18_convert_identity_tree : forall (W D Er : Type) key (t : list (@snode (option nat) W D)),
+  swf dis_id t -> forall root, (root < length t)%nat ->
+  (forall x y k, key x = Some k -> key y = Some k -> stree t x = stree t y) ->
+  forall fuel, (po_fuel (src_children dis_id t) root <= fuel)%nat ->
+  exists tbl, convert dis_id (@prune_cv W D Er t (fun _ => HideNeither)) key t fuel root tt = Ok (tt, tbl) /\
+    length tbl = length (po_spec (src_children dis_id t) key root) /\
+    (forall i it, nth_error (po_spec (src_children dis_id t) key root) i = Some it ->
+       unfold_tree (rview tbl) (S i) i = stree t (it_node it)) /\
+    (key_acyclic (src_children dis_id t) key ->
+       unfold_tree (rview tbl) (length tbl) (length tbl - 1) = stree t root).
+Proof. intros W D Er key t Hwf root Hroot Hkey fuel Hf. exact (convert_identity_tree key t Hwf root Hroot Hkey Er fuel Hf). Qed.
+Print Assumptions C18_convert_identity_tree.
+
+Theorem C18_convert_sound_keys : forall (W D : Type) (t : list (@snode (option nat) W D)),
+  (forall x y k, key_ptr x = Some k -> key_ptr y = Some k -> stree t x = stree t y) /\
+  (forall x y k, key_none x = Some k -> key_none y = Some k -> stree t x = stree t y).
+Proof. exact (fun W D t => conj (key_ptr_sound t) (key_none_sound t)). Qed.
+Print Assumptions C18_convert_sound_keys.
+
+(* a conversion that fails stopped inside the post-order hook sequence: the log is a prefix of it *)
+Theorem C18_convert_order_err : forall (X W D X' W' D' St Er : Type) (dis : X -> option nat)
+    (cv : @converter X W X' W' D' St Er) key (t : list (@snode X W D)),
+  swf dis t -> forall root, (root < length t)%nat -> forall fuel s s' lg e,
+  (po_fuel (src_children dis t) root <= fuel)%nat ->
+  convert dis (logging cv) key t fuel root (s, []) = Err ((s', lg), e) ->
+  exists k, map ev_key lg = firstn k (flat_map (hooks_at t) (po_spec (src_children dis t) key root)).
+Proof. exact @convert_order_err. Qed.
+Print Assumptions C18_convert_order_err.
+
+(* visit_node and convert_data are called exactly once per yielded item, in iteration order *)
+Theorem C18_convert_hooks_once : forall (X W D X' W' D' St Er : Type) (dis : X -> option nat)
+    (cv : @converter X W X' W' D' St Er) key (t : list (@snode X W D)),
+  swf dis t -> forall root, (root < length t)%nat -> forall fuel s s' lg tbl,
+  (po_fuel (src_children dis t) root <= fuel)%nat ->
+  convert dis (logging cv) key t fuel root (s, []) = Ok ((s', lg), tbl) ->
+  map snd (filter (is_hook HVisit) (map ev_key lg)) = po_spec (src_children dis t) key root /\
+  map snd (filter (is_hook HData) (map ev_key lg)) = po_spec (src_children dis t) key root.
+Proof. exact @convert_hooks_once. Qed.
+Print Assumptions C18_convert_hooks_once.
